@@ -673,6 +673,11 @@ func calculateTextEditRange(content string, pos protocol.Position, ctxType Compl
 		return nil
 	}
 
+	// the edit replaces the typed fragment up to the cursor and never starts behind it
+	if startByte > byteCol {
+		startByte = byteCol
+	}
+
 	startChar := lsputil.ByteOffsetToUTF16(line, startByte)
 	return &protocol.Range{
 		Start: protocol.Position{Line: pos.Line, Character: uint32(startChar)},
